@@ -202,3 +202,51 @@ Proof.
   unfold guard_c in H. destruct (construct h (map fst fs) vals') as [[u|e]|]; simpl in H; try discriminate;
     repeat (match type of H with context [if ?c then _ else _] => destruct c end); discriminate.
 Qed.
+
+(* ---------------------------------------------------------------- dataclass, sequence layout *)
+(* The positions of the INPUT are paired with the fields the constructor binds (init=True), in declaration order -- a field
+   kept out of the constructor takes no position -- and a position is a child exactly when its element is rejected by the
+   field's type on its own, the child being the tree the element's conversion alone reports. *)
+Fixpoint pos_children_spec (i : nat) (ts : list ty) (xs : list pyval) : list (ekey * enode) :=
+  match ts, xs with
+  | t :: r, x :: s => match convert t x with
+                      | CErr e => (KIdx i, e) :: pos_children_spec (S i) r s
+                      | _ => pos_children_spec (S i) r s
+                      end
+  | _, _ => []
+  end.
+
+Definition positional_types (fs : list (fld * ty)) : list ty := map snd (filter (fun ft => f_init (fst ft)) fs).
+
+Lemma tuple_cls_collect_children fs : forall i xs vals ch,
+  tuple_cls_collect tc ce i fs xs = ROk (vals, ch) -> ch = pos_children_spec i (positional_types fs) xs.
+Proof.
+  unfold positional_types.
+  induction fs as [|[f t] fs IH]; intros i xs vals ch H; simpl in *; [now inversion H|].
+  destruct xs as [|x xs].
+  - inversion H; subst. destruct (f_init f); simpl; [reflexivity|]. destruct (map snd _); reflexivity.
+  - destruct (f_init f) eqn:Fi; simpl.
+    + unfold convert_elem in H. fold (convert t x) in H. destruct (convert t x) as [y|e|z] eqn:C; try discriminate.
+      * destruct (tuple_cls_collect tc ce (S i) fs xs) as [[vals' ch']|z] eqn:T; [|discriminate].
+        inversion H; subst. eapply IH; eauto.
+      * destruct (tuple_cls_collect tc ce (S i) fs xs) as [[vals' ch']|z] eqn:T; [|discriminate].
+        inversion H; subst. f_equal. eapply IH; eauto.
+    + eapply IH; eauto.
+Qed.
+
+Theorem class_positional_children h fs v exp ch act mi ex :
+  pane_seq_gate_collect (kind_of v) = true ->
+  ce (TClass h fs) v = CTree (EProduct exp ch act mi ex) ->
+  ch = pos_children_spec 0 (positional_types fs) (items_of v) /\ ch <> [] /\ act = v /\ mi = [] /\ ex = [].
+Proof.
+  intros G H. cbn [ce] in H. rewrite G in H.
+  destruct (has_fmt FTuple h); [|discriminate].
+  destruct (pos_args (map fst fs)) as [mn mx].
+  destruct ((mn <=? List.length (items_of v))%nat && (List.length (items_of v) <=? mx)%nat); [|discriminate].
+  destruct (tuple_cls_collect tc ce 0 fs (items_of v)) as [[vals ch']|z] eqn:T; [|discriminate].
+  destruct ch' as [|c ch'].
+  - destruct (construct h (map fst fs) vals) as [r|]; unfold guard_c in H.
+    + destruct (raw_unit r) as [|e]; [discriminate|]. destruct (caught S_post_tuple_collect e); discriminate.
+    + destruct (caught S_post_tuple_collect ETypeError); discriminate.
+  - inversion H; subst. split; [now apply (tuple_cls_collect_children fs 0 _ vals)|]. repeat split. discriminate.
+Qed.
